@@ -7,9 +7,10 @@
    (zeros and ties allowed); any length >= 1. *)
 From Coq Require Import List Arith ZArith QArith Permutation.
 From RV Require Import Base.QB Gen.GenPairing Model.Pairing Model.StepLaw Model.Bst Model.Alias Model.Huffman Model.Table
-  Model.Inversion Model.BstAdapted
+  Model.Inversion Model.BstAdapted Model.Factory Model.Stateful Model.BstAdaptedNd
   Proofs.C02_StepLaw Proofs.C02_Bst Proofs.C02_Inversion Proofs.C02_Huffman Proofs.C02_BstAdapted Proofs.C02_Alias
-  Proofs.C02_Table Proofs.C02_Refuted.
+  Proofs.C02_Table Proofs.C02_Lattice Proofs.C02_TableDraw Proofs.C02_InversionAdm Proofs.C02_Stateful Proofs.C02_Factory
+  Proofs.C02_BstAdaptedNd Proofs.C02_Refuted.
 Import ListNotations.
 Open Scope Q_scope.
 
@@ -96,11 +97,116 @@ Theorem C02_table_law : forall p : list Q, (1 <= length p)%nat -> nonneg p -> qs
   /\ (forall b, (-1 <= nth b (table_J p) (-1) < Z.of_nat (length p))%Z).
 Proof. exact table_law. Qed.
 
-(* alias / table / bst / huffman / bstadapted draws are functions of the tables built at construction: the
-   models thread no state, so a sequence of draws is a map (a cache added later has to be justified here) *)
-Theorem C02_no_history : forall (T A : Type) (draw : T -> Q -> A) (tables : T) (us : list Q) (i : nat),
-  nth_error (run_pure draw tables us) i = option_map (draw tables) (nth_error us i).
-Proof. exact @no_history. Qed.
+(* ---- wave 2 ---- *)
+
+(* InversionMethod + StatesManager over an enumeration WITH inadmissible indices: in every reachable state
+   inv_step = locate_r over the ADMISSIBLE sub-enumeration G (right-closed intervals of lengths prob (proj i), i in G),
+   provided the restart at x == _max_storage is harmless (restart_harmless); G is exactly the admissible indices;
+   zero-probability states are never returned for u > 0.  (Without restart_harmless: C02_inversion_overflow_refuted.) *)
+Theorem C02_inversion_admissible : forall (S : Type) (proj : Z -> S) (inside : S -> bool) (F : Z) (prob : S -> Q) (M : Z),
+  (forall s, 0 <= prob s) -> (1 <= M)%Z -> (0 <= F)%Z -> restart_harmless proj inside F M ->
+  let segs := adm_segs' proj inside F prob in
+  (forall st, reachable proj inside F prob M st -> forall u,
+     snd (inv_step proj inside F prob M st u) = match locate_r 0 segs u with Some i => Out (proj i) | None => Frontier end)
+  /\ (forall i, In i (G proj inside F) <-> (0 <= i <= F)%Z /\ inside (proj i) = true)
+  /\ (forall i, In i (G proj inside F) -> len_of i segs == prob (proj i))
+  /\ seg_nonneg segs
+  /\ (forall u i, 0 < u -> In i (G proj inside F) -> prob (proj i) == 0 -> locate_r 0 segs u <> Some i).
+Proof. exact @inversion_admissible_full. Qed.
+
+(* the restart is harmless when every index is admissible (1-d chains, centred square grids) or the storage never fills *)
+Theorem C02_inversion_restart_harmless : forall (S : Type) (proj : Z -> S) (inside : S -> bool) (F M : Z), (0 <= F)%Z ->
+  (forall i, (0 <= i <= F)%Z -> inside (proj i) = true) \/ (Z.of_nat (length (G proj inside F)) < M)%Z ->
+  restart_harmless proj inside F M.
+Proof. exact @restart_harmless_cases. Qed.
+
+(* TableMethod._sample_one as the code runs it (ONE 32-bit word gives the slot byte and the alias uniform):
+   the number of 32-bit words sent to k is 2^32 p_k up to #{residual bytes} * #{alias intervals labelled k} <= 512 K,
+   i.e. P(k) = p_k within K * 2^-23 over a uniform word (N = 2^24 values of the upper 24 bits) *)
+Theorem C02_table_draw_law : forall N : nat, Z.of_nat N = (2 ^ 24)%Z ->
+  forall p : list Q, (1 <= length p)%nat -> nonneg p -> qsum p == 1 -> forall k, (k < length p)%nat ->
+  let t := create_table p in
+  let words := qn (words_to N t (Z.of_nat k)) in
+  4294967296 * nth k p 0 - table_err t k <= words /\ words <= 4294967296 * nth k p 0 + table_err t k
+  /\ table_err t k <= 512 * qn (length p).
+Proof. exact table_draw_law. Qed.
+
+(* ... and whatever the word, a state of probability zero is never returned *)
+Theorem C02_table_draw_never_zero : forall p : list Q, (1 <= length p)%nat -> nonneg p -> qsum p == 1 ->
+  forall k w, (k < length p)%nat -> nth k p 0 == 0 -> (0 <= w < 2 ^ 32)%Z ->
+    table_draw_word (create_table p) w <> Some (Z.of_nat k).
+Proof. exact table_draw_never_zero. Qed.
+
+(* BST / Huffman: index in range, never a zero-probability state *)
+Theorem C02_bst_range_nonzero : forall p : list Q, (1 <= length p)%nat -> nonneg p -> forall b, create_bst p = Some b ->
+  forall u, 0 <= u -> u < qsum p ->
+    (0 <= bst_sample (length p - 1) b u < Z.of_nat (length p))%Z /\ ~ nth (Z.to_nat (bst_sample (length p - 1) b u)) p 0 == 0.
+Proof. exact bst_range_nonzero. Qed.
+Theorem C02_huffman_range_nonzero : forall p : list Q, (1 <= length p)%nat -> nonneg p -> forall t, create_huffman p = Some t ->
+  forall u, 0 <= u -> u < qsum p ->
+    (0 <= huff_sample t u < Z.of_nat (length p))%Z /\ ~ nth (Z.to_nat (huff_sample t u)) p 0 == 0.
+Proof. exact huffman_range_nonzero. Qed.
+
+(* the factory: create_vec_jump_matrix zeroes the origin and `states` is index - origin, hence the increment 0 is never
+   returned by ALIAS / BINARYSEARCHTREE / HUFFMANNTREE of a 1-d chain *)
+Theorem C02_factory_never_origin : forall (q : list Q) (lam : Q) (o : nat),
+  let p := vec_jump q lam o in
+  (o < length q)%nat -> nonneg p -> qsum p == 1 ->
+  (forall u, 0 <= u -> u < 1 ->
+     states_map (Z.of_nat o) (Z.of_nat (alias_draw (length p) (snd (create_alias p)) (fst (create_alias p)) u)) <> 0%Z)
+  /\ (forall b, create_bst p = Some b -> forall u, 0 <= u -> u < 1 -> states_map (Z.of_nat o) (bst_sample (length p - 1) b u) <> 0%Z)
+  /\ (forall t, create_huffman p = Some t -> forall u, 0 <= u -> u < 1 -> states_map (Z.of_nat o) (huff_sample t u) <> 0%Z).
+Proof. exact factory_never_origin. Qed.
+
+(* the hidden state carried between draws (cost counters; the lru cache of cell probabilities with any eviction policy)
+   never influences the output: any sequence of draws returns what the state-free draw functions return *)
+Theorem C02_history_free_table_driven :
+  (forall k bst cost us, run_st (bst_sample_st k bst) cost us = map (bst_sample k bst) us)
+  /\ (forall t cost us, run_st (huff_sample_st t) cost us = map (huff_sample t) us)
+  /\ (forall K q J cost us, run_st (alias_draw_st K q J) cost us = map (alias_draw K q J) us).
+Proof. exact table_driven_history_free. Qed.
+Theorem C02_bstadapted1d_cache_history_free : forall (axis : list Q) (o : Z) (middle mass : Q -> Q -> Q) (lam : Q) (evict : pcache -> pcache),
+  (forall a a' b b', a == a' -> b == b' -> mass a b == mass a' b') ->
+  (forall c x, In x (evict c) -> In x c) ->
+  forall (h minf : Q) (us : list Q),
+    run_st (ba_sample_c axis o middle mass lam evict h minf) [] us = map (ba_sample axis o middle mass lam h minf) us.
+Proof. exact ba_history_free. Qed.
+
+(* n-d BinarySearchTreeAdapted, sample_one_bucket: for a box mass additive under the split of one axis and non-negative,
+   the axis-cycling bisection terminates with the model's fuel and is the right-closed step function over the cells of
+   the bucket: total = bm bucket, every cell c of the bucket has length bm(cell c), the returned cell lies in the bucket *)
+Theorem C02_bstadaptednd_bucket_law : forall (bm : box -> Q) (B : Z),
+  (forall b, wfb B b -> 0 <= bm b) ->
+  (forall b k m, wfb B b -> (k < length b)%nat -> (fst (nth k b (0, 0)%Z) <= m < snd (nth k b (0, 0)%Z))%Z ->
+     bm b == bm (upd b k (fst (nth k b (0, 0)%Z), m)) + bm (upd b k ((m + 1)%Z, snd (nth k b (0, 0)%Z)))) ->
+  forall res, wfb B res ->
+    total (bucket_segs bm B res) == bm res
+    /\ seg_nonneg (bucket_segs bm B res)
+    /\ bucket_segs bm B res <> []
+    /\ (forall c, InBox c res -> len_of (enc B c) (bucket_segs bm B res) == bm (cellbox c))
+    /\ (forall lab, In lab (map snd (bucket_segs bm B res)) -> exists c, InBox c res /\ lab = enc B c)
+    /\ (forall cp, exists c, sample_one_bucket bm res cp = Some c /\ InBox c res
+                          /\ (cp <= bm res -> locate_r 0 (bucket_segs bm B res) cp = Some (enc B c))).
+Proof. exact sample_one_bucket_law. Qed.
+
+(* bucket stage + bisection composed.  FULL statement (not proved): for the buckets of _pre_computation, including those served
+   from the cached cumulative vectors, nd_sample u = cell c iff u lies in an interval of length bm(cell c), every non-origin
+   cell exactly once.  PROVED here: any non-empty list of buckets none of which is served from the cache (grids with
+   d * n >= 10001 points, or the non-axis buckets): searchsorted on the cumulative bucket probabilities + residual +
+   sample_one_bucket = locate_r over the concatenated bucket intervals.  (The cached vectors: C02_bstadaptednd_axis_total.) *)
+Theorem C02_bstadaptednd_law_partial : forall (bm : box -> Q) (B : Z),
+  (forall b, wfb B b -> 0 <= bm b) ->
+  (forall b k m, wfb B b -> (k < length b)%nat -> (fst (nth k b (0, 0)%Z) <= m < snd (nth k b (0, 0)%Z))%Z ->
+     bm b == bm (upd b k (fst (nth k b (0, 0)%Z), m)) + bm (upd b k ((m + 1)%Z, snd (nth k b (0, 0)%Z)))) ->
+  forall (d : nat) (n o : Z) (bs : list box), bs <> [] -> Forall (wfb B) bs ->
+  (forall b, In b bs -> is_axis_bucket d n b = false) ->
+  let segs := concat (map (bucket_segs bm B) bs) in
+  total segs == qsum (map bm bs)
+  /\ forall u, u <= qsum (map bm bs) ->
+       exists b cell, In b bs /\ InBox cell b
+                      /\ nd_sample_with bm d n o bs u = Some (map (fun c => (c - o)%Z) cell)
+                      /\ locate_r 0 segs u = Some (enc B cell).
+Proof. exact nd_sample_compose. Qed.
 
 (* F-C02-6 (recorded finding, current tree): the right-closed samplers send u = 0 to the first enumerated state
    even when its probability is zero *)
@@ -140,7 +246,18 @@ Print Assumptions C02_huffman_law.
 Print Assumptions C02_alias_law.
 Print Assumptions C02_bstadapted1d_law.
 Print Assumptions C02_table_law.
-Print Assumptions C02_no_history.
+Print Assumptions C02_inversion_admissible.
+Print Assumptions C02_inversion_restart_harmless.
+Print Assumptions C02_table_draw_law.
+Print Assumptions C02_table_draw_never_zero.
+Print Assumptions C02_bst_range_nonzero.
+Print Assumptions C02_huffman_range_nonzero.
+Print Assumptions C02_factory_never_origin.
+Print Assumptions C02_history_free_table_driven.
+Print Assumptions C02_bstadapted1d_cache_history_free.
+Print Assumptions C02_bstadaptednd_bucket_law.
+Print Assumptions C02_bstadaptednd_law_partial.
 Print Assumptions C02_inversion_zero_uniform_refuted.
 Print Assumptions C02_bstadapted1d_zero_uniform_refuted.
 Print Assumptions C02_inversion_overflow_refuted.
+Print Assumptions C02_nonvacuous.
